@@ -3,6 +3,7 @@
 From Coq Require Import List NArith ZArith Permutation.
 From Coq.Strings Require Import Byte.
 From SP Require Import Bytes Params Msgpack Crypto Errors Packets Chunker Rand Verify Encrypt Decrypt EncryptProofs.
+From SP Require Import BaseX Encodings Armor ArmorProofs ArmoredForms.
 Import ListNotations.
 Open Scope N_scope.
 
@@ -86,6 +87,28 @@ Theorem C01_forms_agree (v : version) (sender : option bytes) (rcpts : list rcpt
 Proof. exact (seal_stream_oneshot c v sender rcpts pieces r). Qed.
 End C01.
 
+(* BINARY AND ARMORED FORMS AGREE: the armored all-at-once entry point is the binary one composed
+   with dearmoring; on the armored form of ANY binary message (genuine or not) it returns exactly
+   what the binary entry point returns on that message, plus the brand — also after re-flowing the armored text. *)
+Theorem C01_armored_form_agrees (c : crypto) (vd : validator) (kr : keyring) (wire brand : bytes) :
+  brand_ok brand ->
+  dearmor62_decrypt_open c vd kr (armor62_seal wire mt_encryption brand) =
+  bind (open_all c vd kr wire) (fun r => Ok (fst r, snd r, brand)).
+Proof. exact (armored_decrypt_agrees c vd kr wire brand). Qed.
+
+Theorem C01_armored_form_agrees_reflow (c : crypto) (vd : validator) (kr : keyring) (wire brand H' B' F' T' : bytes) :
+  brand_ok brand ->
+  let chars := BaseX.encode base62 wire in
+  frame_reflow (make_frame header_marker mt_encryption brand) H' ->
+  ws_ins (space_words (S (length chars)) chars 0) B' ->
+  frame_reflow (make_frame footer_marker mt_encryption brand) F' ->
+  forallb is_frame_ws T' = true ->
+  dearmor62_decrypt_open c vd kr (H' ++ [dot] ++ B' ++ [dot] ++ F' ++ [dot] ++ T') =
+  bind (open_all c vd kr wire) (fun r => Ok (fst r, snd r, brand)).
+Proof. exact (armored_decrypt_agrees_reflow c vd kr wire brand H' B' F' T'). Qed.
+
+Print Assumptions C01_armored_form_agrees.
+Print Assumptions C01_armored_form_agrees_reflow.
 Print Assumptions C01_sender_structure.
 Print Assumptions C01_roundtrip.
 Print Assumptions C01_no_key.
